@@ -35,12 +35,21 @@ func init() {
 		cr := spg.NewCharRecipe(17)
 		parts = append(parts, fmt.Sprintf("newchar=%d,%d,%d,%d,%s,%d,%s", cr.Length, uint32(cr.Allow), uint32(cr.Require), uint32(cr.Exclude),
 			hxs(cr.AllowChars), len(cr.RequireSets), hxs(cr.ExcludeChars)))
+		// the constructors hand out fresh values: what a caller does with one result shows in no other
+		cr.Length, cr.Allow, cr.Require, cr.Exclude = 3, spg.Digits, spg.Symbols, 0
+		cr.AllowChars, cr.RequireSets, cr.ExcludeChars = "xyz", []string{"ab"}, "q"
+		cr2 := spg.NewCharRecipe(9)
+		parts = append(parts, fmt.Sprintf("newchar2=%d,%d,%d,%d,%s,%d,%s,first=%d", cr2.Length, uint32(cr2.Allow), uint32(cr2.Require), uint32(cr2.Exclude),
+			hxs(cr2.AllowChars), len(cr2.RequireSets), hxs(cr2.ExcludeChars), cr.Length))
 		wl, err := spg.NewWordList([]string{"x", "y"})
 		if err != nil {
 			panic("harness: builtin: " + err.Error())
 		}
 		wr := spg.NewWLRecipe(5, wl)
 		parts = append(parts, fmt.Sprintf("newwl=%d,%s,%s,%t,%d", wr.Length, hxs(string(wr.Capitalize)), hxs(wr.SeparatorChar), wr.SeparatorFunc == nil, wr.Size()))
+		wr.Length, wr.Capitalize, wr.SeparatorChar, wr.SeparatorFunc = 2, spg.CSAll, "+", spg.SFDigits1
+		wr2 := spg.NewWLRecipe(4, wl)
+		parts = append(parts, fmt.Sprintf("newwl2=%d,%s,%s,%t,%d,first=%d", wr2.Length, hxs(string(wr2.Capitalize)), hxs(wr2.SeparatorChar), wr2.SeparatorFunc == nil, wr2.Size(), wr.Length))
 		parts = append(parts, fmt.Sprintf("budget=%d,%s", spg.MaxTrials, fmt.Sprintf("%.17g", spg.MaxFailRate)))
 		parts = append(parts, fmt.Sprintf("caps=%s,%s,%s,%s,%s", spg.CSNone, spg.CSFirst, spg.CSAll, spg.CSRandom, spg.CSOne))
 		parts = append(parts, fmt.Sprintf("types=%d,%d kinds=%d,%d,%d,%d", spg.SeparatorType, spg.AtomType,
